@@ -120,15 +120,9 @@ def run(ctx):
         calls.append(('date', (rng.choice([0, 1, 1899, 1900, 2000, 9999]), rng.randrange(-200000, -11000),
                                rng.randrange(-40, 61))))
         calls.append((rng.choice(['edate', 'eomonth']), (rng.choice(days), rng.randrange(-200000, -10000))))
-    # known finding C17-day-recursion: exercised once known_findings.json lists it (until then the
-    # two calls would make every run fail; ctx.extra records whether they ran)
-    recursion_listed = any(f.get('id') == 'C17-day-recursion' and f.get('kind') == 'known'
-                           for f in getattr(ctx, 'findings', []))
-    ctx.extra['day_recursion_stream'] = 'exercised' if recursion_listed else \
-        'skipped: known_findings.json has no entry C17-day-recursion'
-    if recursion_listed:
-        calls.append(('date', (2000, 1, 40000)))
-        calls.append(('date', (2000, 1, -40000)))
+    # known finding C17-day-recursion: always exercised
+    calls.append(('date', (2000, 1, 40000)))
+    calls.append(('date', (2000, 1, -40000)))
     for n in days[::11]:
         for k in [0, 1, -1, 12, -12, 1200, -1200] + [rng.randrange(-1200, 1201) for _ in range(3)]:
             calls.append(('edate', (n, k)))
